@@ -57,7 +57,7 @@ func loginsAt(spec *WorldSpec, at time.Duration, k int, cookie string) (out []id
 			id := idents{}
 			if rec.Class == "redirect-idp" && len(rec.SetCookie) == 1 {
 				pc := parseSetCookie(rec.SetCookie[0])
-				ar := f.IdP.parseAuth(rec.Location)
+				ar := f.ParseAuth(rec.Location)
 				id = idents{SID: pc.Value, State: ar.Param("state"), Nonce: ar.Param("nonce"), Challenge: ar.Param("code_challenge"), OK: pc.Value != ""}
 			}
 			out = append(out, id)
@@ -157,7 +157,7 @@ func runC06(p *Plan) *Result {
 			for _, rec := range w.Checks {
 				if rec.Class == "redirect-idp" && len(rec.SetCookie) == 1 {
 					pc := parseSetCookie(rec.SetCookie[0])
-					ar := f.IdP.parseAuth(rec.Location)
+					ar := f.ParseAuth(rec.Location)
 					seq = append(seq, idents{SID: pc.Value, State: ar.Param("state"), Nonce: ar.Param("nonce"), Challenge: ar.Param("code_challenge"), OK: pc.Value != ""})
 				}
 			}
@@ -201,7 +201,7 @@ func runC06(p *Plan) *Result {
 					break
 				}
 				pc := parseSetCookie(rec.SetCookie[0])
-				ar := f.IdP.parseAuth(rec.Location)
+				ar := f.ParseAuth(rec.Location)
 				seq = append(seq, idents{SID: pc.Value, State: ar.Param("state"), Nonce: ar.Param("nonce"), Challenge: ar.Param("code_challenge"), OK: pc.Value != ""})
 				cookie = pc.Name + "=" + pc.Value
 			}
